@@ -174,6 +174,65 @@ pub fn cache_weak(sim: &mut Sim, code_prefix: &str, d: &Delivery, pre: &CacheSna
     }
 }
 
+/// A template record that was received complete, in a packet of an allowed version, is the
+/// definition later data sets must be decoded with (C06) - also when a *later* set of the same
+/// packet could not be decoded (C07: the undecodable set must leave the caches as they were,
+/// which includes what the packet had taught the parser up to that point).
+pub fn templates_around_unknown_kept(sim: &mut Sim, code_prefix: &str, d: &Delivery, w: &Walk, post: &CacheSnap) {
+    if !w.conformant() {
+        return;
+    }
+    for pk in &w.pkts {
+        if !pk.has_unknown {
+            continue;
+        }
+        let (proto, sets) = match &pk.body {
+            MBody::V9 { sets, .. } => (Proto::V9, sets),
+            MBody::Ipfix { sets, .. } => (Proto::Ipfix, sets),
+            _ => continue,
+        };
+        if sets.iter().any(|s| s.tainted) {
+            continue;
+        }
+        // latest definition per id among the template records of this packet (V9: those in
+        // front of the undecodable flowset, the only ones the walk reaches)
+        let mut latest: std::collections::BTreeMap<u16, &TDef> = std::collections::BTreeMap::new();
+        for s in sets {
+            if let MSetKind::Tpls { tpls, .. } = &s.kind {
+                if proto == Proto::Ipfix && tpls.len() > 1 {
+                    latest.clear();
+                    break;
+                }
+                for (id, def) in tpls {
+                    latest.insert(*id, def);
+                }
+            }
+        }
+        // a later packet of the same buffer may have redefined the id again
+        let last_pkt = std::ptr::eq(pk, w.pkts.last().unwrap());
+        if !last_pkt {
+            continue;
+        }
+        for (id, def) in latest {
+            let key = (proto, def.is_options(), id);
+            if post.get(&key) != Some(def) {
+                sim.find(
+                    &format!("{}-template-of-failing-packet-not-kept", code_prefix),
+                    d.ev,
+                    format!(
+                        "the {:?} packet at offset {} carries a complete template record for id {} and a data set for an unknown template; after the call the cache does not hold that definition (it holds {:?})",
+                        proto,
+                        pk.start,
+                        id,
+                        post.get(&key).or(post.get(&(proto, !def.is_options(), id)))
+                    ),
+                );
+                return;
+            }
+        }
+    }
+}
+
 fn spelled_out(buf: &[u8], id: u16, def: &TDef) -> bool {
     let w = crate::wire::template_record(id, def);
     if w.len() > buf.len() {
@@ -722,6 +781,7 @@ fn c06(sim: &mut Sim, d: &Delivery) -> u64 {
     }
     let model_before = sim.models[d.p].clone();
     let w = model_step(sim, d, &post);
+    templates_around_unknown_kept(sim, "C06", d, &w, &post);
     if w.fully_known() {
         // (1) exact refinement: the real caches are the model's
         let real = strip_tainted(&post, &sim.models[d.p]);
@@ -863,6 +923,7 @@ fn c07(sim: &mut Sim, d: &Delivery) -> u64 {
         sim.stats.nontrivial = true;
         // caches: nothing may come from the undecodable data set
         cache_weak(sim, "C07", d, &pre, &post);
+        templates_around_unknown_kept(sim, "C07", d, &w, &post);
         let Some(offs) = offsets(d.buf, &r) else { return 1 };
         if let Stop::V9Unknown { off } = w.stop {
             sim.stats.probe("v9_data_for_unknown_template");
